@@ -92,7 +92,14 @@ def evaluate(seed, suite=False):
     finally:
         sh(f"git -C /repo worktree remove --force {wt}")
         shutil.rmtree(wt, ignore_errors=True)
-    json.dump(res, open(os.path.join(d, "result.json"), "w"), indent=1)
+    rp = os.path.join(d, "result.json")
+    if not suite and os.path.exists(rp):
+        # a run without --suite keeps the suite verdict of the last run with it
+        old = json.load(open(rp))
+        for k in ("suite_missing", "suite_passed", "suite_error"):
+            if k in old:
+                res[k] = old[k]
+    json.dump(res, open(rp, "w"), indent=1)
     return res
 
 
